@@ -71,16 +71,20 @@ def _shape(t):
     return t["k"] if t["k"] != "atom" else "atom:%s%s" % (t.get("attr"), t.get("cmp"))
 
 
-def classify(q, exp_rows, got, kind, ptag, prows):
-    """abstract descriptor of a mismatching case (stable across seeds)"""
+def classify(q, exp_rows, got, kind, ptag, prows, hinge=False):
+    """abstract descriptor of a mismatching case (stable across seeds).
+    family-pruning: the rows are exactly those the as-built IP family pruning of the model returns; shape "neq" = would be
+    right if != atoms did not prune, "or" = needs a sound treatment of disjunctions; reading = "neq-only" if the returned rows
+    are what the definition gives under the other reading of != across IP families (a != v needs v's family)"""
     got_rows = got.get("rows") or []
     if kind == "rows":
+        reading = "neq-only" if hinge else "any"
         if ptag in ("neq", "or") and _same_rows(prows, got_rows):
-            return {"cls": "family-pruning", "shape": ptag}
+            return {"cls": "family-pruning", "shape": ptag, "reading": reading}
         if _same_rows(_lowzero_rows(exp_rows), got_rows) and not _same_rows(exp_rows, got_rows):
             return {"cls": "v6-lowzero-address-as-v4"}
         if ptag in ("neq", "or") and _same_rows(_lowzero_rows(prows), got_rows):
-            return {"cls": "family-pruning", "shape": ptag, "lowzero": True}
+            return {"cls": "family-pruning", "shape": ptag, "reading": reading, "lowzero": True}
     return {"cls": "result-mismatch", "kind": kind, "attrs": ",".join(sorted(q.get("attrs", []))),
             "time": bool(q.get("time")), "iface": bool(q.get("iface")), "dir": q.get("dir"),
             "nifaces": len(q.get("ifaces", [])), "cond": _shape(q.get("cond"))}
@@ -162,6 +166,9 @@ def gen(vh, sc, name, genset, seed, nseeded, out, workers=4, timeout=1500):
         vlib.require(g.infos and "dbs" in g.infos[0], "QueryGen %s printed no databases" % name)
         dbs = g.infos[0]["dbs"]
         cases = [c for t in g.traces for c in t]
+        # TLC's workers print in no particular order: fix the order (the position decides e.g. on which side of the
+        # condition the direction filter is written) so that a run is a function of the seed
+        cases.sort(key=lambda c: json.dumps([c["db"], c["q"]], sort_keys=True))
         vlib.require(len(cases) >= MINCASES[name], "generator %s produced too few cases" % name)
         fails, summ = run_replay(vh, sc, dbs, cases, name)
         g.stdout = ""
@@ -289,9 +296,10 @@ def main():
             run.cov.setdefault("forward", {})[name] = {"cases": len(cases), "failed": len(fails), "rows_returned": sum(s["rows"] for s in summ),
                                                          "pruning_sensitive": sum(1 for c in cases if c["ptag"] != "same"),
                                                          "nonempty_expected": sum(1 for c in cases if c["exp"]["hits"] > 0)}
-            if name == "pair":
+            if first_ok is None:
+                failed = {json.dumps(f["case"], sort_keys=True) for f in fails}
                 for c in cases:
-                    if c["exp"]["hits"] > 1 and c["ptag"] == "same" and c["class"] == "pair":
+                    if c["exp"]["hits"] > 1 and c["class"] != "z" and json.dumps(c, sort_keys=True) not in failed:
                         first_ok = (dbs, c)
                         break
             mid = cases[len(cases) // 2]
@@ -299,7 +307,7 @@ def main():
                         "expected_hits": mid["exp"]["hits"]})
             for f in sorted(fails, key=lambda f: json.dumps(f["case"], sort_keys=True)):
                 c = f["case"]
-                desc = classify(c["q"], c["exp"]["rows"], f.get("got", {}), f["kind"], c.get("ptag"), c.get("prows", []))
+                desc = classify(c["q"], c["exp"]["rows"], f.get("got", {}), f["kind"], c.get("ptag"), c.get("prows", []), c.get("hinge", False))
                 desc["binding"] = "F"
                 report(desc, {"kind": "query-replay", "dbs": {c["db"]: dbs[c["db"]]}, "case": c, "text": f.get("text"),
                               "qtype": f.get("qtype"), "got": f.get("got"), "msg": f.get("msg", "")[:1500]})
@@ -314,11 +322,9 @@ def main():
         bad3["exp"]["totals"][2] += 1
         nfails, _ = run_replay(vh, sc, dbs0, [c0, bad1, bad2, bad3], "neg")
         kinds = sorted((f["id"], f["kind"]) for f in nfails)
-        if kinds and kinds[0][0] == 0:
-            kinds = kinds[1:]       # the original case itself fails (reported above)
         vlib.require(kinds == [(1, "rows"), (2, "rows"), (3, "totals")],
                      "negative control: corrupted expectations not rejected as expected: %s" % kinds)
-        run.cov["negative_control_F"] = "corrupted counter / dropped row / corrupted totals rejected"
+        run.cov["negative_control_F"] = "corrupted counter / dropped row / corrupted totals rejected, the unmodified case accepted"
 
         # ---------------------------------------------------------------- B
         t, evs, negsrc = res["B"]
@@ -361,9 +367,9 @@ def main():
                 kind = "ifaces"
             pr = mm.get("pruned", [])
             ptag = "same" if _same_rows(pr, exp["rows"]) else ("neq" if mm.get("neqfixed") else "or")
-            desc = classify(e["q"], exp["rows"], got, kind, ptag, pr)
+            desc = classify(e["q"], exp["rows"], got, kind, ptag, pr, bool(mm.get("hinge")) and ptag != "same")
             desc["binding"] = "B"
-            case = {"db": "d", "q": e["q"], "exp": exp, "ptag": ptag, "prows": pr, "class": "drive"}
+            case = {"db": "d", "q": e["q"], "exp": exp, "ptag": ptag, "prows": pr, "class": "drive", "hinge": bool(mm.get("hinge"))}
             report(desc, {"kind": "query-replay", "dbs": {"d": dbat[ln]["db"]}, "case": case, "text": e.get("text"),
                           "qtype": e.get("qtype"), "got": got, "msg": e.get("err", "")[:1500]})
 
